@@ -236,6 +236,9 @@ func (v *Voucher) VerifyCertChainHash() error {
 	}
 
 	cchash := v.Header.Val.CertChainHash
+	if !cchash.Algorithm.Valid() {
+		return fmt.Errorf("unsupported hash algorithm %d for device certificate chain hash", int64(cchash.Algorithm))
+	}
 	digest := cchash.Algorithm.HashFunc().New()
 	for _, cert := range *v.CertChain {
 		if cert == nil {
